@@ -81,6 +81,16 @@ func plan(tier string, seed int64) []driver.Case {
 			}
 		}
 	}
+	// the consumer stalls once for 40 windows inside its first callback; a fast, long stream follows
+	for q := 1; q <= 2; q++ {
+		for i := 0; i < 2; i++ {
+			id := fmt.Sprintf("native/q%d/w20ms/stall-burst/k1-uniform/async/complete/%d", q, i)
+			cases = append(cases, driver.Case{ID: id, P: map[string]string{
+				"lim": "native", "q": fmt.Sprint(q), "w": "20ms", "tl": "stall-burst", "nk": "1", "dist": "uniform",
+				"src": "async", "end": "complete", "seed": fmt.Sprint(rng.Int63()), "widen": "0",
+			}})
+		}
+	}
 	cases = append(cases, sharedPlan(tier)...)
 	cases = append(cases, twicePlan(tier)...)
 	cases = append(cases, rotationPlan(tier)...)
@@ -149,6 +159,15 @@ func buildSteps(rng *rand.Rand, p params) []step {
 				add(0)
 			} else {
 				add(u / time.Duration(2*p.q))
+			}
+		}
+	case "stall-burst":
+		// a fast stream that lasts a few windows beyond the stall (the stall happens inside the first delivery)
+		for i := 0; i < 40000; i++ {
+			if i == 0 {
+				add(0)
+			} else {
+				add(5 * time.Microsecond)
 			}
 		}
 	case "sparse":
@@ -299,6 +318,7 @@ func checkStream(p params, emitted []emission, events []rec.Event, tuStart, tu i
 		if p.w < time.Hour && p.w >= 20*time.Millisecond {
 			q, w := int64(p.q), int64(p.w)
 			reported := false
+			var bs map[int64][]int64
 			for i := 0; i < len(dl) && !reported; i++ {
 				for j := i; j < len(dl); j++ {
 					cnt := int64(j - i + 1)
@@ -328,10 +348,15 @@ func checkStream(p params, emitted []emission, events []rec.Event, tuStart, tu i
 							tl = append(tl, fmt.Sprintf("%s:%d emitted@%s delivered@%s", k, dl[x].seq, ms(tbOf[x]-tbOf[i]), ms(dl[x].td-tbOf[i])))
 						}
 						if p.lim == "native" {
-							if ok, why := lateTicksExplain(p.q, p.w, cnt, tbOf[i], dl[j].td, emitted[0].TB); ok {
-								st.excused = append(st.excused, fmt.Sprintf("key %s: %d items passed within %s (formula allows %d) — %s: windows compressed by ticks processed late, at most %d items in each of the limiter's own windows; timeline: %v", k, cnt, ms(L), bound, why, p.q, tl))
-								reported = true
-								break
+							if bs == nil {
+								bs = boundaries()
+							}
+							if ok, why := lateTicksExplainWith(bs, p.q, p.w, cnt, tbOf[i], dl[j].td, emitted[0].TB); ok {
+								// excused - every other span is examined all the same
+								if len(st.excused) < 3 {
+									st.excused = append(st.excused, fmt.Sprintf("key %s: %d items passed within %s (formula allows %d) — %s: windows compressed by ticks processed late, at most %d items in each of the limiter's own windows; timeline: %v", k, cnt, ms(L), bound, why, p.q, tl))
+								}
+								continue
 							}
 						}
 						out = append(out, finding{"quota-exceeded", fmt.Sprintf("key %s: %d items passed within a span of %s (from the emission of %s:%d to the delivery of %s:%d); quota %d per %v allows at most %d×(⌊%s/%v⌋+2) = %d", k, cnt, ms(L), k, dl[i].seq, k, dl[j].seq, p.q, p.w, p.q, ms(L), p.w, bound), tl})
@@ -460,9 +485,13 @@ func runCase(c driver.Case) driver.Result {
 	r := rec.New("c20")
 	termCh := make(chan struct{})
 	var termOnce sync.Once
+	var stalled atomic.Bool
 	r.OnEvent = func(e *rec.Event) {
 		if e.Kind != rec.Next {
 			termOnce.Do(func() { close(termCh) })
+		} else if p.tl == "stall-burst" && r.Len() >= 2 && stalled.CompareAndSwap(false, true) {
+			// (not in the first deliveries: the limiter subscribes its time base after the first item went through)
+			time.Sleep(40 * p.w)
 		}
 	}
 	observer := rec.RawWith[item](r, func(it item) string { return it.String() })
